@@ -374,6 +374,14 @@ func genInvalid(stream string, seed uint64, nTrunc int, depthMax int) []GenCase 
 			}
 		}
 	}
+	// an illegal character is illegal wherever it stands: as the very last rune, the very first, right after a
+	// string, a number, a comment's newline
+	for _, ch := range []string{"\x00", "#", "@", "&", "|", "~", "`"} {
+		for _, sc := range []string{"return 1;" + ch, ch + "return 1;", "return \"s\"" + ch + ";", "return 1" + ch + ";", "return 1; // c\n" + ch, "return 1;\n" + ch + "\n", "x = 1;" + ch + " return x;",
+			"if (true) { return 1; }" + ch, "function f() { return 1; }" + ch, "return 1; " + ch + " "} {
+			add(sc, true, "illegal-character-position")
+		}
+	}
 	// `local` outside a function, at any depth of non-function contexts
 	for _, ctx := range validContexts {
 		if ctx.name == "function-body" || ctx.name == "before-valid" {
@@ -617,6 +625,13 @@ func genLex(stream string, seed uint64, n int) []GenCase {
 		v := r.Intn(100000)
 		lit := strings.Repeat("0", 1+r.Intn(3)) + fmt.Sprint(v)
 		add("return "+lit+";", fmt.Sprintf("intz-%d", i), "expectint:"+fmt.Sprint(v), []string{"tokens"}, "number-literal", "leading-zero")
+	}
+	// a literal keeps its own type whatever other literal of the same spelling stands in the script
+	for k, p := range [][3]string{{"3.5", "\"3.5\"", "floatstring"}, {"\"3.5\"", "3.5", "stringfloat"}, {"70000", "\"70000\"", "integerstring"}, {"\"70000\"", "70000", "stringinteger"},
+		{"/steve/", "\"steve\"", "regexpstring"}, {"\"steve\"", "/steve/", "stringregexp"}, {"70000", "70000.0", "integerfloat"}, {"70000.0", "70000", "floatinteger"},
+		{"\"true\"", "true", "stringboolean"}, {"1.0", "\"1\"", "floatstring"}, {"\"1\"", "1.0", "stringfloat"}} {
+		add("a = "+p[0]+"; b = "+p[1]+"; return type(a) + type(b);", fmt.Sprintf("sametext-%d", k), "expect:"+hexs(p[2]), nil, "same-spelling-different-type")
+		add("function f() { return "+p[1]+"; } a = "+p[0]+"; return type(a) + type(f());", fmt.Sprintf("sametext-fn-%d", k), "expect:"+hexs(p[2]), nil, "same-spelling-different-type")
 	}
 	// things that look like numbers in other notations are not number literals
 	for _, s := range []string{"0x10", "0b11", "0o17", "1_000", "1e3", "0x", "1.", ".5", "1..2", "1.2.3", "0.5.", "00.5", "1__0", "0_1"} {
